@@ -673,9 +673,9 @@ func (p *wat2laWorker) buildFunc_ins(
 
 			// 如果返回值位置和目标block的base不一致则需要逐个复制
 			if firstResultBase > destScopeContex.StackBase {
-				// 返回值是逆序出栈
+				// 目标位置低于源位置: 必须从低到高复制, 逆序会覆盖尚未读取的源
 				// 注意: 这里只是搬运, 不能改变栈的状态
-				for i := len(destScopeContex.Result) - 1; i >= 0; i-- {
+				for i := 0; i < len(destScopeContex.Result); i++ {
 					spSrc := p.fnWasmR0Base - (firstResultBase+i)*8 - 8
 					spDst := p.fnWasmR0Base - (destScopeContex.StackBase+i)*8 - 8
 					assert(!p.isS12Overflow(int32(spSrc)))
@@ -741,9 +741,9 @@ func (p *wat2laWorker) buildFunc_ins(
 
 			// 如果返回值位置和目标block的base不一致则需要逐个复制
 			if firstResultBase > destScopeContex.StackBase {
-				// 返回值是逆序出栈
+				// 目标位置低于源位置: 必须从低到高复制, 逆序会覆盖尚未读取的源
 				// 注意: 这里只是搬运, 不能改变栈的状态
-				for i := len(destScopeContex.Result) - 1; i >= 0; i-- {
+				for i := 0; i < len(destScopeContex.Result); i++ {
 					spSrc := p.fnWasmR0Base - (firstResultBase+i)*8 - 8
 					spDst := p.fnWasmR0Base - (destScopeContex.StackBase+i)*8 - 8
 					assert(!p.isS12Overflow(int32(spSrc)))
@@ -928,9 +928,9 @@ func (p *wat2laWorker) buildFunc_ins(
 
 			// 如果返回值位置和目标block的base不一致则需要逐个复制
 			if firstResultBase > destScopeContex.StackBase {
-				// 返回值是逆序出栈
+				// 目标位置低于源位置: 必须从低到高复制, 逆序会覆盖尚未读取的源
 				// 注意: 这里只是搬运, 不能改变栈的状态
-				for i := len(destScopeContex.Result) - 1; i >= 0; i-- {
+				for i := 0; i < len(destScopeContex.Result); i++ {
 					spSrc := p.fnWasmR0Base - (firstResultBase+i)*8 - 8
 					spDst := p.fnWasmR0Base - (destScopeContex.StackBase+i)*8 - 8
 					assert(!p.isS12Overflow(int32(spSrc)))
